@@ -28,6 +28,10 @@
 (*   InvNoPanic            (C22) the client never dereferences a nil session*)
 (*   InvBadSigOutcome      (C22) bad signature => error, not connected,     *)
 (*                               no session activated on the server         *)
+(*   InvNoSessionUnverified(C22) for every service-result class of the      *)
+(*                               response: session object => signature ok   *)
+(*   InvCleanAfterFailure  (C22) after EVERY failed Connect of a client     *)
+(*                               value: channel closed, state Closed        *)
 (*   InvInterop            (C37) honest server + client that follows an     *)
 (*                               advertised endpoint with allowed key sizes *)
 (*                               always ends Connected, write ok, read back  *)
@@ -47,6 +51,12 @@
 EXTENDS Naturals, Sequences, FiniteSets, TLC, Json
 
 CONSTANTS Dev_AdoptClientSecurity, Dev_IgnoreSigFailure, Dev_TokenKeyLimits,
+          Dev_StatusSkipsVerify,  \* demo: a Good-with-subcode / Uncertain service result makes the client skip the error of the signature check
+          Dev_CloseOnce,          \* demo: only the first failed Connect of a client value cleans up
+          Dev_RecycledConfig,     \* demo: server channel state of an earlier secured connection leaks into a later one
+          SresSet,                \* service-result classes the script may put on the CreateSession response
+          MaxAttempts,            \* Connect attempts on ONE client value (retry after a failure)
+          Histories,              \* subset of {"none", "secured"}: what happened on the server before this client
           Dev_AdvertiseExtra, Dev_DropPolicy, Dev_WrongTokenPolicy,
           ConfigSet,      \* which server configurations: "all" "quick" "thorough" "interopq" "interop" "one"
           Scripted,       \* TRUE: adversarial server script (C22)
@@ -73,6 +83,9 @@ AuthTypes == {"anon", "user"}
 \* request): certificate alone, another certificate, another nonce -- including the nonce of another,
 \* overlapping CreateSession request of the same client
 SigClasses == {"valid", "corrupted", "empty", "otherkey", "otherdata"}
+\* class of the ServiceResult in the CreateSession response header: Good (0), Good with a sub code
+\* (GoodCompletesAsynchronously, GoodOverload ...), Uncertain, Bad
+SresClasses == {"good", "goodsub", "uncertain", "bad"}
 
 \* A server configuration: enabled pairs, size of the server key, enabled user-token types
 CfgRec(ps, k, a) == [pairs |-> ps, skey |-> k, auth |-> a]
@@ -92,6 +105,7 @@ Configs ==
                                  {CfgRec({pr}, 2048, a) : pr \in Fit(2048), a \in {{"anon"}, {"user"}, Both}} \cup
                                  {CfgRec({Pair("None", "None"), pr}, 2048, {"user"}) : pr \in Fit(2048)}
     [] ConfigSet = "one"      -> {CfgRec(Fit(2048), 2048, Both)}
+    [] ConfigSet = "seq"      -> {CfgRec({Pair("Basic256Sha256", "Sign")}, 2048, {"anon"})}
 
 \* what an endpoint carries: the pair and its user-token policies (type, policy used for the secret)
 PolsOf(ps) == {pr.pol : pr \in ps}
@@ -115,8 +129,11 @@ VARIABLES
   srvSess,  \* server side session: "none" | "created" | "activated"
   state,    \* client connection state: "Closed" | "Connecting" | "Connected"
   node,     \* value of the test node on the server
-  ops       \* results of the application calls after Connect
-vars == <<cfg, up, adv, eps, cli, chan, chanSec, sig, sess, srvSess, state, node, ops>>
+  ops,      \* results of the application calls after Connect
+  sres,     \* class of the service result of the CreateSession response ("none" before)
+  prev,     \* history of the server before this client: "none" | "secured" (a secured client connected and left)
+  tries     \* earlier failed Connect attempts of this client value: <<[sig, sres, state, chan]>>
+vars == <<cfg, up, adv, eps, cli, chan, chanSec, sig, sess, srvSess, state, node, ops, sres, prev, tries>>
 
 NoChoice == [intent |-> "none", pol |-> "None", mode |-> "None", ckey |-> 0, tok |-> "none"]
 
@@ -126,6 +143,7 @@ Init == /\ cfg \in Configs
         /\ chan = "none" /\ chanSec = Pair("None", "None")
         /\ sig = "none" /\ sess = "none" /\ srvSess = "none"
         /\ state = "Closed" /\ node = 0 /\ ops = <<>>
+        /\ sres = "none" /\ prev = "none" /\ tries = <<>>
 
 ---------------------------------------------------------------------------
 \* server.Start: initEndpoints builds one endpoint per enabled pair
@@ -135,13 +153,20 @@ SrvStart ==
   /\ adv' = IF Dev_AdvertiseExtra /\ ExtraPair \notin cfg.pairs
             THEN EndpointsOf(cfg) \cup {[pol |-> ExtraPair.pol, mode |-> ExtraPair.mode, toks |-> TokensOf(cfg)]}
             ELSE EndpointsOf(cfg)
-  /\ UNCHANGED <<cfg, eps, cli, chan, chanSec, sig, sess, srvSess, state, node, ops>>
+  /\ UNCHANGED <<cfg, eps, cli, chan, chanSec, sig, sess, srvSess, state, node, ops, sres, prev, tries>>
+
+\* the server has a history: an ordinary secured client connected, worked and disconnected earlier.
+\* Nothing of it may influence what a later connection is allowed to do.
+PrevConn ==
+  /\ up /\ cli.intent = "none" /\ eps = {} /\ prev = "none" /\ "secured" \in Histories
+  /\ prev' = "secured"
+  /\ UNCHANGED <<cfg, up, adv, eps, cli, chan, chanSec, sig, sess, srvSess, state, node, ops, sres, tries>>
 
 \* opcua.GetEndpoints (discovery; its own short-lived channel is not modelled)
 CliDiscover ==
   /\ up /\ eps = {} /\ adv # {} /\ cli.intent = "none"
   /\ eps' = adv
-  /\ UNCHANGED <<cfg, up, adv, cli, chan, chanSec, sig, sess, srvSess, state, node, ops>>
+  /\ UNCHANGED <<cfg, up, adv, cli, chan, chanSec, sig, sess, srvSess, state, node, ops, sres, prev, tries>>
 
 \* quick tier: the client key is the server's size or one across each boundary of the policy tables
 \* (1024 | 2048 | > 2048), instead of every allowed size
@@ -159,7 +184,7 @@ CliChooseEndpoint ==
        /\ \E tk \in e.toks : tk.type = t
        /\ cli' = [intent |-> "endpoint", pol |-> e.pol, mode |-> e.mode, ckey |-> k, tok |-> t]
   /\ state' = "Connecting"
-  /\ UNCHANGED <<cfg, up, adv, eps, chan, chanSec, sig, sess, srvSess, node, ops>>
+  /\ UNCHANGED <<cfg, up, adv, eps, chan, chanSec, sig, sess, srvSess, node, ops, sres, prev, tries>>
 
 \* an arbitrary client: any (policy, mode) in the OPN, whatever the server advertises
 CliChooseRaw ==
@@ -167,7 +192,7 @@ CliChooseRaw ==
   /\ \E pr \in AllPairs :
        cli' = [intent |-> "raw", pol |-> pr.pol, mode |-> pr.mode, ckey |-> 2048, tok |-> "anon"]
   /\ state' = "Connecting"
-  /\ UNCHANGED <<cfg, up, adv, eps, chan, chanSec, sig, sess, srvSess, node, ops>>
+  /\ UNCHANGED <<cfg, up, adv, eps, chan, chanSec, sig, sess, srvSess, node, ops, sres, prev, tries>>
 
 \* Can both sides do the asymmetric crypto of this OPN at all?
 PolicyKnown(p) == p # Dev_DropPolicy
@@ -179,33 +204,56 @@ CryptoPossible(pr) == /\ pr \in SupportedPairs
 Opn ==
   /\ cli.intent # "none" /\ chan = "none"
   /\ LET pr == Pair(cli.pol, cli.mode)
-         accept == IF Dev_AdoptClientSecurity THEN CryptoPossible(pr)
-                   ELSE pr \in cfg.pairs /\ CryptoPossible(pr)
+         leak   == Dev_RecycledConfig /\ prev = "secured" /\ pr.pol = "None" /\ pr.mode # "None"
+         accept == \/ leak
+                   \/ IF Dev_AdoptClientSecurity THEN CryptoPossible(pr)
+                      ELSE pr \in cfg.pairs /\ CryptoPossible(pr)
      IN  /\ chan' = IF accept THEN "open" ELSE "refused"
          /\ chanSec' = IF accept THEN pr ELSE chanSec
          /\ state' = IF accept THEN state ELSE "Closed"
-  /\ UNCHANGED <<cfg, up, adv, eps, cli, sig, sess, srvSess, node, ops>>
+  /\ UNCHANGED <<cfg, up, adv, eps, cli, sig, sess, srvSess, node, ops, sres, prev, tries>>
 
 \* CreateSessionRequest/Response: the server signs clientCertificate + clientNonce
 CreateSession ==
   /\ chan = "open" /\ cli.intent = "endpoint" /\ sig = "none"
-  /\ \E s \in SigClasses :
-       /\ (~Scripted => s = "valid")
+  /\ \E s \in SigClasses, r \in SresSet :
+       /\ (~Scripted => s = "valid" /\ r = "good")
        /\ sig' = IF chanSec.mode = "None" THEN "na" ELSE s
+       /\ sres' = r
   /\ srvSess' = "created"
-  /\ UNCHANGED <<cfg, up, adv, eps, cli, chan, chanSec, sess, state, node, ops>>
+  /\ UNCHANGED <<cfg, up, adv, eps, cli, chan, chanSec, sess, state, node, ops, prev, tries>>
 
 \* client.go CreateSession response handler: VerifySessionSignature
 SigGood == sig \in {"valid", "na"}
+\* a failed Connect calls Client.Close: channel and connection are closed, state Closed
+CleanUp == IF Dev_CloseOnce /\ Len(tries) >= 1
+           THEN UNCHANGED <<chan, state>>                    \* demo: Close ran once already and does nothing now
+           ELSE chan' = "closed" /\ state' = "Closed"
+SoftStatus == sres \in {"goodsub", "uncertain"}
 CliVerifySig ==
   /\ sig # "none" /\ sess = "none"
-  /\ \/ /\ SigGood
+  /\ \/ /\ sres = "bad"                            \* a Bad service result is the error, whatever the signature
+        /\ sess' = "error" /\ CleanUp
+     \/ /\ sres = "good" /\ SigGood
         /\ sess' = "created" /\ UNCHANGED <<chan, state>>
-     \/ /\ ~SigGood /\ ~Dev_IgnoreSigFailure        \* error -> Connect closes the channel and returns it
-        /\ sess' = "error" /\ chan' = "closed" /\ state' = "Closed"
-     \/ /\ ~SigGood /\ Dev_IgnoreSigFailure         \* logged, (nil, nil) returned
+     \/ /\ SoftStatus /\ SigGood                    \* verified; accepting or refusing such a response are both allowed
+        /\ \/ sess' = "created" /\ UNCHANGED <<chan, state>>
+           \/ sess' = "error" /\ CleanUp
+     \/ /\ sres # "bad" /\ ~SigGood /\ ~Dev_IgnoreSigFailure /\ ~(Dev_StatusSkipsVerify /\ SoftStatus)
+        /\ sess' = "error" /\ CleanUp                \* error -> Connect closes the channel and returns it
+     \/ /\ sres # "bad" /\ ~SigGood /\ Dev_IgnoreSigFailure         \* logged, (nil, nil) returned
         /\ sess' = "nil" /\ UNCHANGED <<chan, state>>
-  /\ UNCHANGED <<cfg, up, adv, eps, cli, chanSec, sig, srvSess, node, ops>>
+     \/ /\ SoftStatus /\ ~SigGood /\ Dev_StatusSkipsVerify /\ ~Dev_IgnoreSigFailure   \* session built before the check, error dropped
+        /\ sess' = "created" /\ UNCHANGED <<chan, state>>
+  /\ UNCHANGED <<cfg, up, adv, eps, cli, chanSec, sig, srvSess, node, ops, sres, prev, tries>>
+
+\* the application calls Connect again on the SAME client value after a failure
+Retry ==
+  /\ cli.intent = "endpoint" /\ sess = "error" /\ chan # "open" /\ Len(tries) + 1 < MaxAttempts
+  /\ tries' = Append(tries, [sig |-> sig, sres |-> sres, state |-> state, chan |-> chan])
+  /\ chan' = "none" /\ sig' = "none" /\ sres' = "none" /\ sess' = "none" /\ srvSess' = "none"
+  /\ state' = "Connecting"
+  /\ UNCHANGED <<cfg, up, adv, eps, cli, chanSec, node, ops, prev>>
 
 \* client.go ActivateSession (client signature, user token secret) + server ActivateSession,
 \* then the namespace read that ends Connect
@@ -221,38 +269,39 @@ Activate ==
         /\ sess' = "activated" /\ srvSess' = "activated" /\ state' = "Connected"
      \/ /\ sess = "nil"                             \* s.serverCertificate on a nil *Session
         /\ sess' = "panic" /\ UNCHANGED <<srvSess, state>>
-  /\ UNCHANGED <<cfg, up, adv, eps, cli, chan, chanSec, sig, node, ops>>
+  /\ UNCHANGED <<cfg, up, adv, eps, cli, chan, chanSec, sig, node, ops, sres, prev, tries>>
 
 \* application calls on the connected client
 Write ==
   /\ state = "Connected" /\ Len(ops) = 0
   /\ node' = 1 /\ ops' = Append(ops, [op |-> "write", res |-> "Good"])
-  /\ UNCHANGED <<cfg, up, adv, eps, cli, chan, chanSec, sig, sess, srvSess, state>>
+  /\ UNCHANGED <<cfg, up, adv, eps, cli, chan, chanSec, sig, sess, srvSess, state, sres, prev, tries>>
 Read ==
   /\ state = "Connected" /\ Len(ops) \in {1, 4}
   /\ ops' = Append(ops, [op |-> "read", res |-> "Good", val |-> node])
-  /\ UNCHANGED <<cfg, up, adv, eps, cli, chan, chanSec, sig, sess, srvSess, state, node>>
+  /\ UNCHANGED <<cfg, up, adv, eps, cli, chan, chanSec, sig, sess, srvSess, state, node, sres, prev, tries>>
 \* the session is activated again on the same channel (DetachSession + ActivateSession: what the client's
 \* restoreSession step does after a reconnect, or a change of user): signed over the nonce of the last
 \* ActivateSession response
 Reactivate ==
   /\ state = "Connected" /\ Len(ops) = 2 /\ sess = "activated"
   /\ ops' = Append(ops, [op |-> "reactivate", res |-> "Good"])
-  /\ UNCHANGED <<cfg, up, adv, eps, cli, chan, chanSec, sig, sess, srvSess, state, node>>
+  /\ UNCHANGED <<cfg, up, adv, eps, cli, chan, chanSec, sig, sess, srvSess, state, node, sres, prev, tries>>
 Write2 ==
   /\ state = "Connected" /\ Len(ops) = 3
   /\ node' = 2 /\ ops' = Append(ops, [op |-> "write", res |-> "Good"])
-  /\ UNCHANGED <<cfg, up, adv, eps, cli, chan, chanSec, sig, sess, srvSess, state>>
+  /\ UNCHANGED <<cfg, up, adv, eps, cli, chan, chanSec, sig, sess, srvSess, state, sres, prev, tries>>
 
-Next == SrvStart \/ CliDiscover \/ CliChooseEndpoint \/ CliChooseRaw \/ Opn
-        \/ CreateSession \/ CliVerifySig \/ Activate \/ Write \/ Read \/ Reactivate \/ Write2
+Next == SrvStart \/ PrevConn \/ CliDiscover \/ CliChooseEndpoint \/ CliChooseRaw \/ Opn
+        \/ CreateSession \/ CliVerifySig \/ Retry \/ Activate \/ Write \/ Read \/ Reactivate \/ Write2
 Spec == Init /\ [][Next]_vars
 
 \* a run is over (explicit, cheap to evaluate; InvTerminalDef ties it to ~ENABLED Next)
 Terminal ==
   \/ chan = "refused"
   \/ cli.intent = "raw" /\ chan = "open"
-  \/ sess \in {"error", "panic"}
+  \/ sess = "panic"
+  \/ sess = "error" /\ (chan = "open" \/ Len(tries) + 1 >= MaxAttempts)
   \/ Len(ops) = 5
   \/ up /\ cli.intent = "none" /\ "raw" \notin Intents /\ (adv = {} \/ "endpoint" \notin Intents)
 InvTerminalDef == Terminal <=> ~ENABLED Next
@@ -275,9 +324,15 @@ InvProvenIdentity == (state = "Connected" /\ chanSec.mode # "None") => sig = "va
 InvNoPanic        == sess # "panic"
 InvBadSigOutcome  == (Terminal /\ sig \in SigClasses \ {"valid"}) =>
                         /\ sess = "error" /\ state = "Closed" /\ srvSess # "activated"
+\* whatever the service result of the response: no session object without a verified signature
+InvNoSessionUnverified == (sess \in {"created", "activated"} /\ chanSec.mode # "None") => sig = "valid"
+InvBadStatusOutcome == (sres = "bad" /\ sess # "none") => sess = "error"
+\* "leaves the client not connected": after every failed Connect -- the first and every later one on the same
+\* client value -- the channel is closed and the state is Closed, so that the next Connect starts afresh
+InvCleanAfterFailure == (sess = "error" /\ ~Dev_TokenKeyLimits) => (state = "Closed" /\ chan # "open")
 \* C37
 BadSigs == SigClasses \ {"valid"}
-InvInterop == (Terminal /\ cli.intent = "endpoint" /\ sig \notin BadSigs) =>
+InvInterop == (Terminal /\ cli.intent = "endpoint" /\ sig \notin BadSigs /\ sres \in {"good", "none"}) =>
                  /\ state = "Connected"
                  /\ ops = <<[op |-> "write", res |-> "Good"], [op |-> "read", res |-> "Good", val |-> 1],
                            [op |-> "reactivate", res |-> "Good"],
@@ -287,18 +342,22 @@ InvInterop == (Terminal /\ cli.intent = "endpoint" /\ sig \notin BadSigs) =>
 \* Rows for the replay harness
 SetToSeq(S) == CHOOSE f \in [1..Cardinality(S) -> S] : \A i, j \in 1..Cardinality(S) : f[i] = f[j] => i = j
 CfgJson == [pairs |-> cfg.pairs, skey |-> cfg.skey, auth |-> cfg.auth]
-OpnRow == [kind |-> "opn", cfg |-> CfgJson, adv |-> adv,
+OpnRow == [kind |-> "opn", cfg |-> CfgJson, adv |-> adv, prev |-> prev,
            pol |-> cli.pol, mode |-> cli.mode, ckey |-> cli.ckey,
            expect |-> chan]
 InteropRow == [kind |-> "interop", cfg |-> CfgJson, adv |-> adv,
                pol |-> cli.pol, mode |-> cli.mode, ckey |-> cli.ckey, tok |-> cli.tok,
                expect |-> [state |-> state, ops |-> ops]]
-SigRow == [kind |-> "sig", pol |-> cli.pol, mode |-> cli.mode, ckey |-> cli.ckey, sig |-> sig,
+SigRow == [kind |-> "sig", pol |-> cli.pol, mode |-> cli.mode, ckey |-> cli.ckey, sig |-> sig, sres |-> sres,
            expect |-> [state |-> state, sess |-> sess, srvSess |-> srvSess]]
+\* a sequence of Connect attempts on one client value: the failed ones and the last one
+SeqRow == [kind |-> "seq", pol |-> cli.pol, mode |-> cli.mode, ckey |-> cli.ckey,
+           tries |-> Append(tries, [sig |-> sig, sres |-> sres, state |-> state, chan |-> chan])]
 InvEmit ==
   /\ (Emit = "opn" /\ cli.intent = "raw" /\ chan \in {"open", "refused"}) => PrintT("ROW " \o ToJson(OpnRow))
-  /\ (Emit = "opn" /\ up /\ cli.intent = "none" /\ eps = {}) =>
+  /\ (Emit = "opn" /\ up /\ cli.intent = "none" /\ eps = {} /\ prev = "none") =>
         PrintT("ROW " \o ToJson([kind |-> "adv", cfg |-> CfgJson, adv |-> adv]))
   /\ (Emit = "interop" /\ Terminal /\ cli.intent = "endpoint") => PrintT("ROW " \o ToJson(InteropRow))
   /\ (Emit = "sig" /\ Terminal /\ cli.intent = "endpoint") => PrintT("ROW " \o ToJson(SigRow))
+  /\ (Emit = "seq" /\ Terminal /\ cli.intent = "endpoint") => PrintT("ROW " \o ToJson(SeqRow))
 =============================================================================
